@@ -1,258 +1,326 @@
-import Taskpool.Inv.Sync
-import Taskpool.Inv.Reg
-/-! The wrapper of a pool task preserves `Good` in every phase, user code included. -/
+import Taskpool.Inv.SemLemmas
+/-! The wrapper of a pool task preserves `Good` — slot conservation, phase, registry, group and **life-cycle**
+invariants — in every phase, user code included.
+
+Every change of the *soft profile* (phase, released, callback counters, cancelled flag, bound callbacks) of the
+task being stepped goes through `good_cur` with an explicit profile transformer; everything else is `Tame`. -/
 namespace Taskpool
 namespace Pool
 
-/-- task `t` still holds its slot -/
-def Unreleased (p : Pool) (t : Nat) : Prop := ∃ tk : PTask, p.tasks[t]? = some tk ∧ tk.released = false
-/-- … and is outside the slot-holding phases, i.e. ready for `_task_ending` -/
-def ReadyToEnd (p : Pool) (t : Nat) : Prop :=
-  ∃ tk : PTask, p.tasks[t]? = some tk ∧ tk.released = false ∧ NYR tk.phase = false
+/-- the current soft profile of task `t` -/
+def Cur (p : Pool) (t : Nat) (s : SoftP) : Prop := ∃ x : PTask, p.tasks[t]? = some x ∧ x.soft = s
 
-theorem _root_.Taskpool.Tame.unreleased {p q : Pool} (h : Tame p q) {t : Nat} (hu : p.Unreleased t) : q.Unreleased t := by
-  obtain ⟨tk, a, b⟩ := hu
-  obtain ⟨tk', a', b'⟩ := h.released t tk a
-  exact ⟨tk', a', b'.trans b⟩
+theorem _root_.Taskpool.Tame.cur {p q : Pool} (h : Tame p q) {t : Nat} {s : SoftP} (hc : p.Cur t s) : q.Cur t s := by
+  obtain ⟨x, hx, hs⟩ := hc
+  have hlt : t < q.tasks.length := by rw [h.len]; exact (List.getElem?_eq_some_iff.mp hx).1
+  obtain ⟨y, hy, e⟩ := h.soft t q.tasks[t] (by simp [hlt])
+  rw [hx] at hy; cases hy
+  exact ⟨q.tasks[t], by simp [hlt], e.trans hs⟩
 
-theorem _root_.Taskpool.Tame.readyToEnd {p q : Pool} (h : Tame p q) {t : Nat} (hu : p.ReadyToEnd t) : q.ReadyToEnd t := by
-  obtain ⟨tk, a, b, c⟩ := hu
-  obtain ⟨tk', a', b'⟩ := h.released t tk a
-  obtain ⟨tk0, a0, _, c0⟩ := h.pt t tk' a'
-  rw [a] at a0; cases a0
-  refine ⟨tk', a', b'.trans b, ?_⟩
-  rcases c0 with e | n
-  · rw [e]; exact c
-  · exact n
+theorem Cur.ok {cap : Cap} {p : Pool} {t : Nat} {s : SoftP} (hc : p.Cur t s) (hg : Good cap p) : OKs p.lost s := by
+  obtain ⟨x, hx, hs⟩ := hc
+  rw [← hs]; exact hg.life t x hx
 
-theorem ReadyToEnd.unreleased {p : Pool} {t : Nat} (h : p.ReadyToEnd t) : p.Unreleased t := by
-  obtain ⟨tk, a, b, _⟩ := h; exact ⟨tk, a, b⟩
+theorem Cur.nyr {cap : Cap} {p : Pool} {t : Nat} {s : SoftP} (hc : p.Cur t s) (hg : Good cap p)
+    (hn : NYR s.phase = true) : s.released = false := by
+  obtain ⟨x, hx, hs⟩ := hc
+  have := hg.phase t x hx (by rw [← hs] at hn; exact hn)
+  rw [← hs]; exact this
 
-/-- the new phase of task `t` is compatible with the registry that files it: unchanged, or `t` is not filed as
-cancelled, or the new phase is past the worker -/
-def PhaseSafe (p : Pool) (t : Nat) (f : PTask → PTask) : Prop :=
-  (∀ x, (f x).phase = x.phase) ∨ t ∉ p.cancelledR ∨ (∀ x, (f x).phase ≠ .created ∧ (f x).phase ≠ .inWorker)
+theorem heldL_modify_at (ts : List PTask) (t : Nat) (f : PTask → PTask) (x : PTask) (hx : ts[t]? = some x)
+    (h : (f x).released = x.released) : heldL (ts.modify t f) = heldL ts := by
+  induction ts generalizing t with
+  | nil => simp [heldL]
+  | cons a as ih =>
+    cases t with
+    | zero => simp at hx; subst hx; simp [heldL, List.countP_cons, h]
+    | succ n =>
+      simp at hx
+      have := ih n hx
+      simp only [heldL, List.modify_succ_cons, List.countP_cons] at this ⊢
+      omega
 
-theorem phaseSafe_of_nonNYR (p : Pool) (t : Nat) (f : PTask → PTask) (hp : ∀ x, NYR (f x).phase = false) :
-    PhaseSafe p t f :=
-  Or.inr (Or.inr fun x => ⟨fun e => by have h := hp x; rw [e] at h; exact absurd h (by decide),
-                            fun e => by have h := hp x; rw [e] at h; exact absurd h (by decide)⟩)
-
-/-- any update of an unreleased task that keeps `released` preserves `Good`, whatever phase it enters -/
-theorem good_modTask_unreleased {cap : Cap} (p : Pool) (t : Nat) (f : PTask → PTask)
-    (hg : Good cap p) (hu : p.Unreleased t) (hr : ∀ x, (f x).released = x.released) (hc : PhaseSafe p t f) :
-    Good cap (p.modTask t f) ∧ (p.modTask t f).Unreleased t := by
-  obtain ⟨tk, a, b⟩ := hu
-  have hget : (p.modTask t f).tasks[t]? = some (f tk) := by simp [modTask, a]
-  refine ⟨⟨?_, ?_, hg.reg.modTask t f hr hc, hg.grp.of_eq rfl (by simp [modTask])⟩, ⟨f tk, hget, by rw [hr]; exact b⟩⟩
+/-- **the generic leaf**: an update of task `t` whose effect on the soft profile is `g`, keeping `released` -/
+theorem good_cur {cap : Cap} (p : Pool) (t : Nat) (f : PTask → PTask) (g : SoftP → SoftP)
+    (hfg : ∀ x, (f x).soft = g x.soft) (hg : Good cap p) (s : SoftP) (hc : p.Cur t s)
+    (hrel : (g s).released = s.released)
+    (hnyr : NYR (g s).phase = true → s.released = false)
+    (hcan : t ∈ p.cancelledR → (g s).phase ≠ .created ∧ (g s).phase ≠ .inWorker)
+    (hok : OKs p.lost (g s)) : Good cap (p.modTask t f) ∧ (p.modTask t f).Cur t (g s) := by
+  obtain ⟨x, hx, hs⟩ := hc
+  have hfx : (f x).soft = g s := by rw [hfg, hs]
+  have hrelx : (f x).released = x.released := by
+    have h1 : (f x).released = (g s).released := by rw [← hfx]; rfl
+    have h2 : x.released = s.released := by rw [← hs]; rfl
+    rw [h1, hrel, h2]
+  have hphx : (f x).phase = (g s).phase := by rw [← hfx]; rfl
+  refine ⟨⟨?_, ?_, ?_, hg.grp.of_eq rfl (by simp [modTask]), ?_⟩, ⟨f x, getElem?_modify_eq _ _ _ _ hx, hfx⟩⟩
   · cases cap with
     | fin n =>
-      obtain ⟨v, hv, hs⟩ := hg.slot
-      exact ⟨v, hv, by simp only [modTask]; rw [heldL_modify_same _ _ _ hr]; exact hs⟩
+      obtain ⟨v, hv, hsum⟩ := hg.slot
+      exact ⟨v, hv, by simp only [modTask]; rw [heldL_modify_at _ _ _ x hx hrelx]; exact hsum⟩
     | inf => exact hg.slot
   · intro i tk' h hn
-    obtain ⟨x, hx, rfl⟩ := getElem?_modify_some p.tasks t i f tk' h
+    obtain ⟨y, hy, rfl⟩ := getElem?_modify_some p.tasks t i f tk' h
     split
     · rename_i e; subst e
-      rw [a] at hx; cases hx
-      rw [hr]; exact b
+      rw [hx] at hy; cases hy
+      rw [hrelx]
+      have : x.released = s.released := by rw [← hs]; rfl
+      rw [this]
+      apply hnyr
+      simp only [if_true] at hn
+      rw [← hphx]; exact hn
     · rename_i ne
       simp only [ne, if_false] at hn
-      exact hg.phase i x hx hn
+      exact hg.phase i y hy hn
+  · exact hg.reg.modTaskAt t f x hx hrelx (fun hm => by rw [hphx]; exact hcan hm)
+  · intro i tk' h
+    obtain ⟨y, hy, rfl⟩ := getElem?_modify_some p.tasks t i f tk' h
+    split
+    · rename_i e; subst e
+      rw [hx] at hy; cases hy
+      rw [hfx]; exact hok
+    · exact hg.life i y hy
 
-theorem modTask_readyToEnd (p : Pool) (t : Nat) (f : PTask → PTask) (hu : p.Unreleased t)
-    (hr : ∀ x, (f x).released = x.released) (hp : ∀ x, NYR (f x).phase = false) : (p.modTask t f).ReadyToEnd t := by
-  obtain ⟨tk, a, b⟩ := hu
-  exact ⟨f tk, by simp [modTask, a], by rw [hr]; exact b, hp tk⟩
+/-! ### profile transformers -/
 
-/-! ### tame pieces of the wrapper -/
+def _root_.Taskpool.SoftP.setPhase (s : SoftP) (ph : Phase) : SoftP := { s with phase := ph }
+def _root_.Taskpool.SoftP.incCb (s : SoftP) (isEnd : Bool) : SoftP := if isEnd then { s with nEC := s.nEC + 1 } else { s with nCC := s.nCC + 1 }
 
-theorem tame_completeTask (p : Pool) (t o) : Tame p (p.completeTask t o) := by
+theorem nonNYR_ne (ph : Phase) (h : NYR ph = false) : ph ≠ .created ∧ ph ≠ .inWorker :=
+  ⟨fun e => by rw [e] at h; exact absurd h (by decide), fun e => by rw [e] at h; exact absurd h (by decide)⟩
+
+/-- changing the phase among phases that carry no life-cycle obligation keeps the profile well-formed -/
+theorem _root_.Taskpool.OKs.setPhase_free {lost : Bool} {s : SoftP} (h : OKs lost s) (ph : Phase)
+    (hph : ph = .wrapUp ∨ (ph = .finished ∧ lost = true)) : OKs lost (s.setPhase ph) := by
+  refine ⟨h.e0, h.e1, h.c1, ?_, h.cw, ?_, ?_, h.ord, h.cn, h.en, ?_⟩
+  · intro hc; rcases hph with rfl | ⟨rfl, _⟩ <;> simp [SoftP.setPhase] at hc
+  · intro hc; rcases hph with rfl | ⟨rfl, _⟩ <;> simp [SoftP.setPhase] at hc
+  · intro hc; rcases hph with rfl | ⟨rfl, _⟩ <;> simp [SoftP.setPhase] at hc
+  · intro hc hl
+    rcases hph with rfl | ⟨_, hl'⟩
+    · simp [SoftP.setPhase] at hc
+    · rw [hl'] at hl; cases hl
+
+theorem _root_.Taskpool.OKs.toLost {lost : Bool} {s : SoftP} (h : OKs lost s) : OKs true s :=
+  ⟨h.e0, h.e1, h.c1, h.c0, h.cw, h.cc, h.ec, h.ord, h.cn, h.en, fun _ hl => by cases hl⟩
+
+/-- a released task whose callbacks are accounted for may finish -/
+theorem _root_.Taskpool.OKs.finished {lost : Bool} {s : SoftP} (h : OKs lost s) (hr : s.released = true)
+    (hne : s.nEC = if s.endCb = .none then 0 else 1)
+    (hA : s.wasCancelled = true → s.cancelCb ≠ .none → s.nCC = 1) : OKs lost (s.setPhase .finished) := by
+  refine ⟨h.e0, h.e1, h.c1, ?_, h.cw, ?_, ?_, h.ord, h.cn, h.en, ?_⟩
+  · intro hc; simp [SoftP.setPhase] at hc
+  · intro hc; simp [SoftP.setPhase] at hc
+  · intro hc; simp [SoftP.setPhase] at hc
+  · intro _ _
+    refine ⟨hr, hne, ?_, ?_⟩
+    · intro hw
+      show s.nCC = if s.cancelCb = .none then 0 else 1
+      by_cases hn : s.cancelCb = .none
+      · simp [hn, h.cn hn]
+      · simp [hn, hA hw hn]
+    · intro hw
+      have hw' : s.wasCancelled = false := hw
+      show s.nCC = 0
+      have h1 := h.c1
+      have h2 := h.cw
+      rcases Nat.lt_or_ge s.nCC 1 with hlt | hge
+      · omega
+      · have : s.nCC = 1 := by omega
+        rw [h2 this] at hw'; cases hw'
+
+theorem good_setLost {cap : Cap} (p : Pool) (hg : Good cap p) : Good cap ({ p with lost := true } : Pool) :=
+  ⟨hg.slot, hg.phase, hg.reg.setLost, hg.grp.of_eq rfl rfl, fun t tk h => (hg.life t tk h).toLost⟩
+
+/-- the asyncio Task of pool task `t` completes -/
+theorem good_completeTask {cap : Cap} (p : Pool) (t : Nat) (o : Outcome) (hg : Good cap p) (s : SoftP) (hc : p.Cur t s)
+    (hfin : OKs p.lost (s.setPhase .finished)) : Good cap (p.completeTask t o) := by
   unfold completeTask
-  split
-  · exact Tame.refl p
-  · refine Tame.trans ?_ (tame_emitChildren _ _)
-    exact tame_modTask p t _ (fun _ => rfl) (fun _ => Or.inr rfl)
+  obtain ⟨x, hx, hs⟩ := hc
+  simp only [hx]
+  refine (tame_emitChildren _ _).good ?_
+  exact (good_cur p t _ (fun s => s.setPhase .finished) (fun _ => rfl) hg s ⟨x, hx, hs⟩ rfl
+    (fun h => by simp [SoftP.setPhase, NYR] at h) (fun _ => by simp [SoftP.setPhase]) hfin).1
 
-theorem tame_finishTask (p : Pool) (t) : Tame p (p.finishTask t) := by
+theorem good_finishTask {cap : Cap} (p : Pool) (t : Nat) (hg : Good cap p) (s : SoftP) (hc : p.Cur t s)
+    (hfin : OKs p.lost (s.setPhase .finished)) : Good cap (p.finishTask t) := by
   unfold finishTask
-  split
-  · exact Tame.refl p
-  · exact tame_completeTask p t _
+  obtain ⟨x, hx, hs⟩ := hc
+  simp only [hx]
+  exact good_completeTask p t _ hg s ⟨x, hx, hs⟩ hfin
 
-/-- suspending in the end callback does not enter a slot-holding phase -/
-theorem tame_suspendTask_endCb (p : Pool) (t) : Tame p (p.suspendTask t .inEndCb) := by
-  unfold suspendTask
-  split
-  · exact Tame.refl p
-  · split
-    · exact Tame.trans (q := p.modTask t fun k => { k with phase := .inEndCb, fut := .cancelled, mustCancel := false })
-        (tame_modTask p t _ (fun _ => rfl) (fun _ => Or.inr rfl)) (tame_schedTask _ _)
-    · exact tame_modTask p t _ (fun _ => rfl) (fun _ => Or.inr rfl)
-
-theorem good_suspendTask {cap : Cap} (p : Pool) (t : Nat) (ph : Phase) (hg : Good cap p) (hu : p.Unreleased t)
-    (hc : t ∉ p.cancelledR ∨ (ph ≠ .created ∧ ph ≠ .inWorker)) :
-    Good cap (p.suspendTask t ph) := by
-  have hs1 : PhaseSafe p t (fun k => { k with phase := ph, fut := .cancelled, mustCancel := false }) :=
-    Or.inr (hc.elim Or.inl (fun h => Or.inr fun _ => h))
-  have hs2 : PhaseSafe p t (fun k => { k with phase := ph, fut := .pending }) :=
-    Or.inr (hc.elim Or.inl (fun h => Or.inr fun _ => h))
-  unfold suspendTask
-  split
-  · exact hg
-  · split
-    · refine (tame_schedTask _ t).good ?_
-      exact (good_modTask_unreleased p t (fun k => { k with phase := ph, fut := .cancelled, mustCancel := false }) hg hu (fun _ => rfl) hs1).1
-    · exact (good_modTask_unreleased p t (fun k => { k with phase := ph, fut := .pending }) hg hu (fun _ => rfl) hs2).1
+theorem good_keyErrorFinish {cap : Cap} (p : Pool) (t) (hg : Good cap p) (s : SoftP) (hc : p.Cur t s)
+    (hph : s.phase = .wrapUp) : Good cap (p.keyErrorFinish t) := by
+  unfold keyErrorFinish
+  have hg1 := good_setLost p hg
+  have hc1 : ({ p with lost := true } : Pool).Cur t s := hc
+  have t1 := tame_modTask ({ p with lost := true } : Pool) t (fun k => { k with pendingExc := some .keyError })
+  refine good_finishTask _ t (t1.good hg1) s (t1.cur hc1) ?_
+  have hok : OKs true s := (hc.ok hg).toLost
+  exact hok.setPhase_free .finished (Or.inr ⟨rfl, rfl⟩)
 
 theorem tame_releaseMapSlot (p : Pool) (t tk) : Tame p (p.releaseMapSlot t tk) := by
   unfold releaseMapSlot
   split
-  · exact Tame.trans (tame_releaseMap p _) (tame_modTask _ t _ (fun _ => rfl) (fun _ => Or.inl rfl))
+  · exact Tame.trans (tame_releaseMap p _) (tame_modTask _ t _)
   · exact Tame.refl p
 
-theorem tame_cbBegin (p : Pool) (t tk b) : Tame p (p.cbBegin t tk b) := by
+theorem good_cbBegin_lost (p : Pool) (t : Nat) (tk : PTask) (isEnd : Bool) : (p.cbBegin t tk isEnd).lost = p.lost := by
   unfold cbBegin
-  exact Tame.trans (tame_logEv p _) (tame_runHooks _ _ _)
+  exact (Tame.trans (tame_logEv (p.modTask t (cbCount isEnd)) _) (tame_runHooks _ _ _)).lost
 
-/-- the end callback (plain, raising or coroutine) with its user code is tame -/
-theorem tame_runCb_end (p : Pool) (t tk) : Tame p (p.runCb t tk true).1 := by
+/-- entering a callback: the ghost counter goes up by one, then the log entry and the callback's user code -/
+theorem good_cbBegin {cap : Cap} (p : Pool) (t : Nat) (tk : PTask) (isEnd : Bool) (hg : Good cap p) (s : SoftP)
+    (hc : p.Cur t s) (hnot : s.phase = .wrapUp) (hok : OKs p.lost (s.incCb isEnd)) :
+    Good cap (p.cbBegin t tk isEnd) ∧ (p.cbBegin t tk isEnd).Cur t (s.incCb isEnd) := by
+  unfold cbBegin
+  simp only
+  have h1 := good_cur p t (cbCount isEnd) (fun s => s.incCb isEnd)
+    (fun x => by unfold cbCount SoftP.incCb; split <;> rfl) hg s hc
+    (by unfold SoftP.incCb; split <;> rfl)
+    (fun h => by
+      have : (s.incCb isEnd).phase = s.phase := by unfold SoftP.incCb; split <;> rfl
+      rw [this, hnot] at h; simp [NYR] at h)
+    (fun _ => by
+      have : (s.incCb isEnd).phase = s.phase := by unfold SoftP.incCb; split <;> rfl
+      rw [this, hnot]; simp)
+    hok
+  refine ⟨Tame.good ?_ h1.1, Tame.cur ?_ h1.2⟩
+  · exact Tame.trans (tame_logEv _ _) (tame_runHooks _ _ _)
+  · exact Tame.trans (tame_logEv _ _) (tame_runHooks _ _ _)
+
+/-- suspending on a harness future in phase `ph` -/
+theorem good_suspend {cap : Cap} (p : Pool) (t : Nat) (ph : Phase) (hg : Good cap p) (s : SoftP) (hc : p.Cur t s)
+    (hnyr : NYR ph = true → s.released = false)
+    (hcan : t ∈ p.cancelledR → ph ≠ .created ∧ ph ≠ .inWorker)
+    (hok : OKs p.lost (s.setPhase ph)) :
+    Good cap (p.suspendTask t ph) ∧ (p.suspendTask t ph).Cur t (s.setPhase ph) := by
+  unfold suspendTask
+  obtain ⟨x, hx, hs⟩ := hc
+  simp only [hx]
+  split
+  · have h1 := good_cur p t (fun k => { k with phase := ph, fut := .cancelled, mustCancel := false })
+      (fun s => s.setPhase ph) (fun _ => rfl) hg s ⟨x, hx, hs⟩ rfl hnyr hcan hok
+    exact ⟨(tame_schedTask _ t).good h1.1, (tame_schedTask _ t).cur h1.2⟩
+  · exact good_cur p t (fun k => { k with phase := ph, fut := .pending })
+      (fun s => s.setPhase ph) (fun _ => rfl) hg s ⟨x, hx, hs⟩ rfl hnyr hcan hok
+
+/-- the callback-accounting facts about a task that is about to run `_task_ending` -/
+structure Ending (s : SoftP) : Prop where
+  rel : s.released = false
+  ph : s.phase = .wrapUp
+  acc : s.wasCancelled = true → s.cancelCb ≠ .none → s.nCC = 1
+
+def _root_.Taskpool.SoftP.release (s : SoftP) : SoftP := { s with released := true }
+
+theorem _root_.Taskpool.OKs.release {lost : Bool} {s : SoftP} (h : OKs lost s) (hph : s.phase = .wrapUp) :
+    OKs lost s.release := by
+  refine ⟨fun hc => by simp [SoftP.release] at hc, h.e1, h.c1, h.c0, h.cw, h.cc, ?_, h.ord, h.cn, h.en, ?_⟩
+  · intro hc; have : s.phase = .inEndCb := hc; rw [hph] at this; cases this
+  · intro hc; have : s.phase = .finished := hc; rw [hph] at this; cases this
+
+theorem _root_.Taskpool.OKs.incEnd {lost : Bool} {s : SoftP} (h : OKs lost s) (hr : s.released = true)
+    (hph : s.phase = .wrapUp) (hne : s.nEC = 0) (hA : s.wasCancelled = true → s.cancelCb ≠ .none → s.nCC = 1)
+    (hecb : s.endCb ≠ .none) : OKs lost (s.incCb true) := by
+  have hphase : (s.incCb true).phase = .wrapUp := hph
+  refine ⟨?_, ?_, h.c1, ?_, h.cw, ?_, ?_, ?_, h.cn, ?_, ?_⟩
+  · intro hc; have : s.released = false := hc; rw [hr] at this; cases this
+  · show s.nEC + 1 ≤ 1; omega
+  · intro hc; rw [hphase] at hc; rcases hc with hc | hc <;> cases hc
+  · intro hc; rw [hphase] at hc; cases hc
+  · intro hc; rw [hphase] at hc; cases hc
+  · intro _ hw hn; exact hA hw hn
+  · intro hc; exact absurd hc hecb
+  · intro hc; rw [hphase] at hc; cases hc
+
+theorem _root_.Taskpool.OKs.toEndCb {lost : Bool} {s : SoftP} (h : OKs lost s) (hr : s.released = true)
+    (hne : s.nEC = 1) (hecb : s.endCb = .coro) : OKs lost (s.setPhase .inEndCb) := by
+  refine ⟨h.e0, h.e1, h.c1, ?_, h.cw, ?_, ?_, h.ord, h.cn, h.en, ?_⟩
+  · intro hc; simp [SoftP.setPhase] at hc
+  · intro hc; simp [SoftP.setPhase] at hc
+  · intro _; exact ⟨hne, hecb, hr⟩
+  · intro hc; simp [SoftP.setPhase] at hc
+
+/-- the end callback stage of `_task_ending`, for a task that has just been filed as ended and released -/
+theorem good_endCallback {cap : Cap} (p : Pool) (t : Nat) (tk : PTask) (hg : Good cap p) (s : SoftP) (hc : p.Cur t s)
+    (hr : s.released = true) (hph : s.phase = .wrapUp) (hne : s.nEC = 0)
+    (hA : s.wasCancelled = true → s.cancelCb ≠ .none → s.nCC = 1) (hspec : tk.endCb = s.endCb) :
+    Good cap (p.endCallback t tk) := by
+  unfold endCallback
+  simp only
+  have t0 := tame_releaseMapSlot p t tk
+  have hg0 := t0.good hg
+  have hc0 := t0.cur hc
+  have hl0 : (p.releaseMapSlot t tk).lost = p.lost := t0.lost
+  have hok := hc0.ok hg0
   unfold runCb
   simp only [if_true]
   split
-  · exact Tame.refl p
-  · exact Tame.trans (tame_cbBegin p t tk true) (tame_logEv _ _)
-  · exact Tame.trans (Tame.trans (tame_cbBegin p t tk true) (tame_logEv _ _)) (tame_modTask _ t _ (fun _ => rfl) (fun _ => Or.inl rfl))
-  · exact Tame.trans (tame_cbBegin p t tk true) (tame_suspendTask_endCb _ t)
+  · -- no end callback
+    rename_i hcb
+    simp only [Bool.false_eq_true, if_false]
+    refine good_finishTask _ t hg0 s hc0 ?_
+    exact hok.finished hr (by rw [hne, ← hspec, hcb]; rfl) hA
+  · -- a plain callback
+    rename_i hcb
+    simp only [Bool.false_eq_true, if_false]
+    have hecb : s.endCb ≠ .none := by rw [← hspec, hcb]; simp
+    have hinc := hok.incEnd hr hph hne hA hecb
+    obtain ⟨hg1, hc1⟩ := good_cbBegin _ t tk true hg0 s hc0 hph hinc
+    have t2 := tame_logEv ((p.releaseMapSlot t tk).cbBegin t tk true) (evCbDone t true)
+    refine good_finishTask _ t (t2.good hg1) _ (t2.cur hc1) ?_
+    have hl : (((p.releaseMapSlot t tk).cbBegin t tk true).logEv (evCbDone t true)).lost = (p.releaseMapSlot t tk).lost := by
+      have := (good_cbBegin_lost (p.releaseMapSlot t tk) t tk true); exact this
+    rw [hl]
+    exact hinc.finished hr (by show s.nEC + 1 = _; rw [hne]; simp [SoftP.incCb, hecb]) hA
+  · -- a callback that raises
+    rename_i x hcb
+    simp only [Bool.false_eq_true, if_false]
+    have hecb : s.endCb ≠ .none := by rw [← hspec, hcb]; simp
+    have hinc := hok.incEnd hr hph hne hA hecb
+    obtain ⟨hg1, hc1⟩ := good_cbBegin _ t tk true hg0 s hc0 hph hinc
+    have t2 : Tame ((p.releaseMapSlot t tk).cbBegin t tk true)
+        ((((p.releaseMapSlot t tk).cbBegin t tk true).logEv (evCbRaised t true)).modTask t fun k => { k with pendingExc := some x }) :=
+      Tame.trans (tame_logEv _ _) (tame_modTask _ t _)
+    refine good_finishTask _ t (t2.good hg1) _ (t2.cur hc1) ?_
+    rw [t2.lost, good_cbBegin_lost]
+    exact hinc.finished hr (by show s.nEC + 1 = _; rw [hne]; simp [SoftP.incCb, hecb]) hA
+  · -- a coroutine callback: the wrapper suspends inside it
+    rename_i hcb
+    simp only [if_true]
+    have hecb : s.endCb = .coro := by rw [← hspec, hcb]
+    have hinc := hok.incEnd hr hph hne hA (by rw [hecb]; simp)
+    obtain ⟨hg1, hc1⟩ := good_cbBegin _ t tk true hg0 s hc0 hph hinc
+    refine (good_suspend _ t .inEndCb hg1 _ hc1 (fun h => by simp [NYR] at h) (fun _ => by simp) ?_).1
+    rw [good_cbBegin_lost]
+    exact hinc.toEndCb hr (by show s.nEC + 1 = 1; omega) hecb
 
-theorem tame_endCallback (p : Pool) (t tk) : Tame p (p.endCallback t tk) := by
-  unfold endCallback
-  simp only
-  have h := Tame.trans (tame_releaseMapSlot p t tk) (tame_runCb_end _ t tk)
-  split
-  · exact h
-  · exact h.trans (tame_finishTask _ t)
-
-theorem good_setLost {cap : Cap} (p : Pool) (hg : Good cap p) : Good cap ({ p with lost := true } : Pool) :=
-  ⟨hg.slot, hg.phase, hg.reg.setLost, hg.grp.of_eq rfl rfl⟩
-
-theorem good_keyErrorFinish {cap : Cap} (p : Pool) (t) (hg : Good cap p) : Good cap (p.keyErrorFinish t) := by
-  unfold keyErrorFinish
-  refine Tame.good ?_ (good_setLost p hg)
-  exact Tame.trans (q := ({ p with lost := true } : Pool).modTask t fun k => { k with pendingExc := some .keyError })
-    (tame_modTask _ t _ (fun _ => rfl) (fun _ => Or.inl rfl)) (tame_finishTask _ t)
-
-/-! ### the release -/
-
-theorem wakeNextL_sum (n : Nat) (ws : List Waiter) (hn : 0 < n) (c : Cap) (ws' : List Waiter) (o : Option Nat)
-    (h : wakeNextL (.fin n) ws = (c, ws', o)) :
-    ∃ v', c = .fin v' ∧ v' + grantsL ws' = n + grantsL ws := by
-  induction ws generalizing c ws' o with
-  | nil =>
-    simp [wakeNextL] at h
-    obtain ⟨rfl, rfl, _⟩ := h
-    exact ⟨n, rfl, rfl⟩
-  | cons w ws ih =>
-    unfold wakeNextL at h
-    split at h
-    · rename_i hp
-      simp at h
-      obtain ⟨rfl, rfl, _⟩ := h
-      refine ⟨n - 1, by simp [Cap.dec], ?_⟩
-      simp [grantsL, hp]; omega
-    · rename_i hp
-      generalize hr : wakeNextL (.fin n) ws = r at h
-      obtain ⟨c1, w1, o1⟩ := r
-      simp at h
-      obtain ⟨rfl, rfl, _⟩ := h
-      obtain ⟨v', h1, h2⟩ := ih c1 w1 o1 hr
-      refine ⟨v', h1, ?_⟩
-      simp only [grantsL, List.countP_cons] at h2 ⊢
-      omega
-
-theorem wakeNextL_inf (ws : List Waiter) : (wakeNextL .inf ws).1 = .inf := by
-  induction ws with
-  | nil => rfl
-  | cons w ws ih =>
-    unfold wakeNextL
-    split
-    · rfl
-    · simp only; exact ih
-
-theorem releasePool_inf (p : Pool) (hv : p.sem.value = .inf) (hw : p.sem.waiters = []) :
-    p.releasePool.sem.value = .inf ∧ p.releasePool.sem.waiters = [] := by
-  unfold releasePool Sem.release Sem.wakeNext
-  simp [hv, hw, Cap.inc, wakeNextL]
-
-theorem releasePool_tasks' (p : Pool) : p.releasePool.tasks = p.tasks := by
-  unfold releasePool; simp
-
-/-- `release()`: value + grants goes up by exactly one; tasks untouched -/
-theorem releasePool_effect (p : Pool) (v : Nat) (hv : p.sem.value = .fin v) :
-    ∃ v', p.releasePool.sem.value = .fin v' ∧
-      v' + grantsL p.releasePool.sem.waiters = v + 1 + grantsL p.sem.waiters ∧
-      p.releasePool.tasks = p.tasks := by
-  unfold releasePool Sem.release Sem.wakeNext
-  simp only [hv, Cap.inc]
-  generalize hr : wakeNextL (Cap.fin (v + 1)) p.sem.waiters = r
-  obtain ⟨c, ws', o⟩ := r
-  obtain ⟨v', h1, h2⟩ := wakeNextL_sum (v+1) p.sem.waiters (by omega) c ws' o hr
-  refine ⟨v', ?_, ?_, ?_⟩ <;> simp [h1, h2]
-
-theorem moveToEnded_frame (p p1 : Pool) (t : Nat) (h : p.moveToEnded t = some p1) :
-    p1.sem = p.sem ∧ p1.tasks = p.tasks := by
-  unfold moveToEnded at h
-  split at h
-  · simp at h; subst h; exact ⟨rfl, rfl⟩
-  · split at h
-    · simp at h; subst h; exact ⟨rfl, rfl⟩
-    · simp at h
-
-@[simp] theorem schedOpt_running (p : Pool) (o) : (p.schedOpt o).running = p.running := by cases o <;> rfl
-@[simp] theorem schedOpt_cancelledR (p : Pool) (o) : (p.schedOpt o).cancelledR = p.cancelledR := by cases o <;> rfl
-@[simp] theorem schedOpt_ended (p : Pool) (o) : (p.schedOpt o).ended = p.ended := by cases o <;> rfl
-@[simp] theorem schedOpt_lost (p : Pool) (o) : (p.schedOpt o).lost = p.lost := by cases o <;> rfl
-
-theorem releasePool_regs (p : Pool) : p.releasePool.running = p.running ∧ p.releasePool.cancelledR = p.cancelledR ∧
-    p.releasePool.ended = p.ended ∧ p.releasePool.lost = p.lost := by
-  unfold releasePool; simp
-
-@[simp] theorem schedOpt_groups (p : Pool) (o) : (p.schedOpt o).groups = p.groups := by cases o <;> rfl
-
-theorem releasePool_groups (p : Pool) : p.releasePool.groups = p.groups := by
-  unfold releasePool; simp
-
-theorem moveToEnded_groups (p p1 : Pool) (t : Nat) (h : p.moveToEnded t = some p1) : p1.groups = p.groups := by
-  unfold moveToEnded at h
-  split at h
-  · simp at h; subst h; rfl
-  · split at h
-    · simp at h; subst h; rfl
-    · simp at h
-
-theorem moveToEnded_lost (p p1 : Pool) (t : Nat) (h : p.moveToEnded t = some p1) : p1.lost = p.lost := by
-  unfold moveToEnded at h
-  split at h
-  · simp at h; subst h; rfl
-  · split at h
-    · simp at h; subst h; rfl
-    · simp at h
-
-/-- the id is filed as ended, the slot is given back and the task marked released — for a task that is ready to end -/
-theorem good_moveRelease {cap : Cap} (p p1 : Pool) (t : Nat) (hg : Good cap p) (hr : p.ReadyToEnd t)
-    (hm : p.moveToEnded t = some p1) :
-    Good cap ((p1.releasePool).modTask t fun k => { k with released := true }) := by
-  obtain ⟨tk, a, b, c⟩ := hr
+/-- the id is filed as ended, the slot is given back and the task marked released — one atomic leaf -/
+theorem good_moveRelease {cap : Cap} (p p1 : Pool) (t : Nat) (hg : Good cap p) (s : SoftP) (hc : p.Cur t s)
+    (he : Ending s) (hm : p.moveToEnded t = some p1) :
+    Good cap ((p1.releasePool).modTask t fun k => { k with released := true }) ∧
+    ((p1.releasePool).modTask t fun k => { k with released := true }).Cur t s.release := by
+  obtain ⟨tk, a, hs⟩ := hc
+  have b : tk.released = false := by have := he.rel; rw [← hs] at this; exact this
+  have c : NYR tk.phase = false := by
+    have : tk.phase = .wrapUp := by have := he.ph; rw [← hs] at this; exact this
+    rw [this]; rfl
   obtain ⟨hs1, ht1⟩ := moveToEnded_frame p p1 t hm
   have h3 : p1.releasePool.tasks = p1.tasks := releasePool_tasks' p1
   obtain ⟨r1, r2, r3, r4⟩ := releasePool_regs p1
+  have hlost : ((p1.releasePool).modTask t fun k => { k with released := true }).lost = p.lost :=
+    r4.trans (moveToEnded_lost p p1 t hm)
   have hgr : ((p1.releasePool).modTask t fun k => { k with released := true }).groups = p.groups := by
     rw [show ((p1.releasePool).modTask t fun k => { k with released := true }).groups = p1.releasePool.groups from rfl,
       releasePool_groups, moveToEnded_groups p p1 t hm]
-  refine ⟨?_, ?_, ?_, hg.grp.of_eq hgr (by simp [modTask, h3, ht1])⟩
+  have hget : ((p1.releasePool).modTask t fun k => { k with released := true }).tasks[t]? = some { tk with released := true } := by
+    simp only [modTask_tasks, h3, ht1]; exact getElem?_modify_eq _ _ _ _ a
+  refine ⟨⟨?_, ?_, ?_, hg.grp.of_eq hgr (by simp [modTask, h3, ht1]), ?_⟩, ⟨_, hget, by rw [← hs]; rfl⟩⟩
   · cases cap with
     | fin n =>
-      obtain ⟨v, hv, hs⟩ := hg.slot
+      obtain ⟨v, hv, hsum⟩ := hg.slot
       obtain ⟨v', h1, h2, _⟩ := releasePool_effect p1 v (by rw [hs1]; exact hv)
       refine ⟨v', by simpa using h1, ?_⟩
       have := heldL_modify_release p.tasks t tk (fun k => { k with released := true }) a b (fun _ => rfl)
@@ -270,193 +338,263 @@ theorem good_moveRelease {cap : Cap} (p p1 : Pool) (t : Nat) (hg : Good cap p) (
       simp at hn; rw [c] at hn; cases hn
     · rename_i ne; simp only [ne, if_false]
       exact hg.phase i x hx hn
-  · exact hg.reg.moveRelease t hm _ r1 r2 r3 (r4.trans (moveToEnded_lost p p1 t hm)) (by simp [modTask, h3, ht1])
+  · exact hg.reg.moveRelease t hm _ r1 r2 r3 hlost (by simp [modTask, h3, ht1])
+  · intro i tk' h
+    rw [hlost]
+    simp only [modTask, h3, ht1] at h
+    obtain ⟨x, hx, rfl⟩ := getElem?_modify_some p.tasks t i _ tk' h
+    split
+    · rename_i e; subst e
+      rw [a] at hx; cases hx
+      have hok : OKs p.lost s := by rw [← hs]; exact hg.life t tk a
+      have : ({ tk with released := true } : PTask).soft = s.release := by rw [← hs]; rfl
+      rw [this]; exact hok.release he.ph
+    · exact hg.life i x hx
 
 /-- `_task_ending` for a task that is ready to end -/
-theorem good_taskEnding {cap : Cap} (p : Pool) (t : Nat) (hg : Good cap p) (hr : p.ReadyToEnd t) :
-    Good cap (p.taskEnding t) := by
+theorem good_taskEnding {cap : Cap} (p : Pool) (t : Nat) (hg : Good cap p) (s : SoftP) (hc : p.Cur t s)
+    (he : Ending s) : Good cap (p.taskEnding t) := by
   unfold taskEnding
-  obtain ⟨tk, a, b, c⟩ := hr
-  simp only [a]
+  obtain ⟨x, hx, hs⟩ := hc
+  simp only [hx]
   split
-  · exact good_keyErrorFinish p t hg
+  · exact good_keyErrorFinish p t hg s ⟨x, hx, hs⟩ he.ph
   · rename_i p1 hm
     unfold endingTail
-    exact (tame_endCallback _ t tk).good (good_moveRelease p p1 t hg ⟨tk, a, b, c⟩ hm)
+    obtain ⟨hg1, hc1⟩ := good_moveRelease p p1 t hg s ⟨x, hx, hs⟩ he hm
+    have hne : s.nEC = 0 := (Cur.ok (p := p) (t := t) ⟨x, hx, hs⟩ hg).e0 he.rel
+    have hspecx : x.endCb = s.endCb := by rw [← hs]; rfl
+    exact good_endCallback _ t x hg1 s.release hc1 rfl he.ph hne he.acc hspecx
 
+/-! ### the cancel callback stage -/
+
+def _root_.Taskpool.SoftP.markCancelled (s : SoftP) : SoftP := { s with wasCancelled := true }
+
+theorem _root_.Taskpool.OKs.markCancelled {lost : Bool} {s : SoftP} (h : OKs lost s) (hph : s.phase = .wrapUp)
+    (hrel : s.released = false) : OKs lost s.markCancelled := by
+  have hne := h.e0 hrel
+  refine ⟨h.e0, h.e1, h.c1, ?_, fun _ => rfl, h.cc, h.ec, ?_, h.cn, h.en, ?_⟩
+  · intro hc; have : s.phase = .created ∨ s.phase = .inWorker := hc; rw [hph] at this; rcases this with h | h <;> cases h
+  · intro hc; have : s.nEC = 1 := hc; omega
+  · intro hc; have : s.phase = .finished := hc; rw [hph] at this; cases this
+
+theorem _root_.Taskpool.OKs.incCancel {lost : Bool} {s : SoftP} (h : OKs lost s) (hph : s.phase = .wrapUp)
+    (hrel : s.released = false) (hn : s.nCC = 0) (hw : s.wasCancelled = true) (hccb : s.cancelCb ≠ .none) :
+    OKs lost (s.incCb false) := by
+  have hphase : (s.incCb false).phase = .wrapUp := hph
+  have hne := h.e0 hrel
+  refine ⟨h.e0, h.e1, ?_, ?_, fun _ => hw, ?_, ?_, ?_, ?_, h.en, ?_⟩
+  · show s.nCC + 1 ≤ 1; omega
+  · intro hc; rw [hphase] at hc; rcases hc with hc | hc <;> cases hc
+  · intro hc; rw [hphase] at hc; cases hc
+  · intro hc; rw [hphase] at hc; cases hc
+  · intro hc; have : s.nEC = 1 := hc; omega
+  · intro hc; exact absurd hc hccb
+  · intro hc; rw [hphase] at hc; cases hc
+
+theorem _root_.Taskpool.OKs.toCancelCb {lost : Bool} {s : SoftP} (h : OKs lost s) (hn : s.nCC = 1)
+    (hccb : s.cancelCb = .coro) (hrel : s.released = false) : OKs lost (s.setPhase .inCancelCb) := by
+  have hne := h.e0 hrel
+  refine ⟨h.e0, h.e1, h.c1, ?_, h.cw, ?_, ?_, h.ord, h.cn, h.en, ?_⟩
+  · intro hc; simp [SoftP.setPhase] at hc
+  · intro _; exact ⟨hn, hccb⟩
+  · intro hc; simp [SoftP.setPhase] at hc
+  · intro hc; simp [SoftP.setPhase] at hc
+
+/-- the cancel callback, then `_task_ending` unless the wrapper is suspended inside a coroutine callback -/
+theorem good_cancelCallback {cap : Cap} (p : Pool) (t : Nat) (tk : PTask) (hg : Good cap p) (s : SoftP) (hc : p.Cur t s)
+    (hph : s.phase = .wrapUp) (hrel : s.released = false) (hn : s.nCC = 0) (hw : s.wasCancelled = true)
+    (hspec : tk.cancelCb = s.cancelCb) : Good cap (p.cancelCallback t tk) := by
+  unfold cancelCallback
+  simp only
+  have hok := hc.ok hg
+  unfold runCb
+  simp only [Bool.false_eq_true, if_false]
+  split
+  · rename_i hcb
+    simp only [Bool.false_eq_true, if_false]
+    exact good_taskEnding p t hg s hc ⟨hrel, hph, fun _ hne => absurd (by rw [← hspec, hcb]) hne⟩
+  · rename_i hcb
+    simp only [Bool.false_eq_true, if_false]
+    have hccb : s.cancelCb ≠ .none := by rw [← hspec, hcb]; simp
+    have hinc := hok.incCancel hph hrel hn hw hccb
+    obtain ⟨hg1, hc1⟩ := good_cbBegin p t tk false hg s hc hph hinc
+    have t2 := tame_logEv (p.cbBegin t tk false) (evCbDone t false)
+    exact good_taskEnding _ t (t2.good hg1) _ (t2.cur hc1) ⟨hrel, hph, fun _ _ => by show s.nCC + 1 = 1; omega⟩
+  · rename_i x hcb
+    simp only [Bool.false_eq_true, if_false]
+    have hccb : s.cancelCb ≠ .none := by rw [← hspec, hcb]; simp
+    have hinc := hok.incCancel hph hrel hn hw hccb
+    obtain ⟨hg1, hc1⟩ := good_cbBegin p t tk false hg s hc hph hinc
+    have t2 : Tame (p.cbBegin t tk false)
+        (((p.cbBegin t tk false).logEv (evCbRaised t false)).modTask t fun k => { k with pendingExc := some x }) :=
+      Tame.trans (tame_logEv _ _) (tame_modTask _ t _)
+    exact good_taskEnding _ t (t2.good hg1) _ (t2.cur hc1) ⟨hrel, hph, fun _ _ => by show s.nCC + 1 = 1; omega⟩
+  · rename_i hcb
+    simp only [if_true]
+    have hccb : s.cancelCb = .coro := by rw [← hspec, hcb]
+    have hinc := hok.incCancel hph hrel hn hw (by rw [hccb]; simp)
+    obtain ⟨hg1, hc1⟩ := good_cbBegin p t tk false hg s hc hph hinc
+    refine (good_suspend _ t .inCancelCb hg1 _ hc1 (fun _ => hrel) (fun _ => by simp) ?_).1
+    rw [good_cbBegin_lost]
+    exact hinc.toCancelCb (by show s.nCC + 1 = 1; omega) hccb hrel
+
+/-- `except CancelledError: await self._task_cancellation(...)`, then the `finally` -/
+theorem good_taskCancellation {cap : Cap} (p : Pool) (t : Nat) (tk : PTask) (hg : Good cap p) (s : SoftP) (hc : p.Cur t s)
+    (hph : s.phase = .wrapUp) (hrel : s.released = false) (hn : s.nCC = 0) (hwf : s.wasCancelled = false)
+    (hspec : tk.cancelCb = s.cancelCb) : Good cap (p.taskCancellation t tk) := by
+  unfold taskCancellation
+  have hok := hc.ok hg
+  split
+  · rename_i hrun
+    have ht : t ∈ p.running := by simpa using hrun
+    -- the registry move
+    have hg1 : Good cap ({ p with running := p.running.erase t, cancelledR := p.cancelledR ++ [t] } : Pool) := by
+      refine ⟨hg.slot, hg.phase, hg.reg.regCancel t ht ?_, hg.grp.of_eq rfl rfl, hg.life⟩
+      intro tk' h
+      obtain ⟨x, hx, hs⟩ := hc
+      rw [hx] at h; cases h
+      have : tk'.phase = .wrapUp := by have := hph; rw [← hs] at this; exact this
+      rw [this]; simp
+    have hc1 : ({ p with running := p.running.erase t, cancelledR := p.cancelledR ++ [t] } : Pool).Cur t s := hc
+    obtain ⟨hg2, hc2⟩ := good_cur _ t (fun k => { k with wasCancelled := true }) (fun s => s.markCancelled) (fun _ => rfl)
+      hg1 s hc1 rfl (fun h => by have : NYR s.phase = true := h; rw [hph] at this; simp [NYR] at this)
+      (fun _ => by show s.phase ≠ _ ∧ s.phase ≠ _; rw [hph]; simp) (hok.markCancelled hph hrel)
+    exact good_cancelCallback _ t tk hg2 _ hc2 hph hrel hn rfl hspec
+  · have hg1 := good_setLost p hg
+    have hc1 : ({ p with lost := true } : Pool).Cur t s := hc
+    have t1 := tame_modTask ({ p with lost := true } : Pool) t (fun k => { k with pendingExc := some .keyError })
+    refine good_taskEnding _ t (t1.good hg1) s (t1.cur hc1) ⟨hrel, hph, ?_⟩
+    intro hw
+    rw [hwf] at hw; cases hw
 
 /-! ### the phases of the wrapper -/
 
-theorem _root_.Taskpool.Tame.goodU {cap : Cap} {p q : Pool} {t : Nat} (h : Tame p q) (hg : Good cap p)
-    (hu : p.Unreleased t) : Good cap q ∧ q.Unreleased t := ⟨h.good hg, h.unreleased hu⟩
+theorem _root_.Taskpool.OKs.toInWorker {lost : Bool} {s : SoftP} (h : OKs lost s)
+    (hc : s.phase = .created ∨ s.phase = .inWorker) : OKs lost (s.setPhase .inWorker) := by
+  refine ⟨h.e0, h.e1, h.c1, fun _ => h.c0 hc, h.cw, ?_, ?_, h.ord, h.cn, h.en, ?_⟩
+  · intro hx; simp [SoftP.setPhase] at hx
+  · intro hx; simp [SoftP.setPhase] at hx
+  · intro hx; simp [SoftP.setPhase] at hx
 
-theorem goodU_suspendTask {cap : Cap} (p : Pool) (t : Nat) (ph : Phase) (hg : Good cap p) (hu : p.Unreleased t)
-    (hc : t ∉ p.cancelledR ∨ (ph ≠ .created ∧ ph ≠ .inWorker)) :
-    Good cap (p.suspendTask t ph) ∧ (p.suspendTask t ph).Unreleased t := by
-  refine ⟨good_suspendTask p t ph hg hu hc, ?_⟩
-  have hs1 : PhaseSafe p t (fun k => { k with phase := ph, fut := .cancelled, mustCancel := false }) :=
-    Or.inr (hc.elim Or.inl (fun h => Or.inr fun _ => h))
-  have hs2 : PhaseSafe p t (fun k => { k with phase := ph, fut := .pending }) :=
-    Or.inr (hc.elim Or.inl (fun h => Or.inr fun _ => h))
-  unfold suspendTask
-  split
-  · exact hu
-  · split
-    · refine Tame.unreleased (tame_schedTask _ t) ?_
-      exact (good_modTask_unreleased p t (fun k => { k with phase := ph, fut := .cancelled, mustCancel := false }) hg hu (fun _ => rfl) hs1).2
-    · exact (good_modTask_unreleased p t (fun k => { k with phase := ph, fut := .pending }) hg hu (fun _ => rfl) hs2).2
+/-- facts about a task that still is in (or before) its worker -/
+structure InWork (s : SoftP) : Prop where
+  rel : s.released = false
+  ncc : s.nCC = 0
+  wc : s.wasCancelled = false
 
-/-- the cancel callback with its user code, while the task still holds its slot -/
-theorem good_runCb_cancel {cap : Cap} (p : Pool) (t : Nat) (tk : PTask) (hg : Good cap p) (hu : p.Unreleased t) :
-    Good cap (p.runCb t tk false).1 ∧ (p.runCb t tk false).1.Unreleased t := by
-  unfold runCb
-  simp only [Bool.false_eq_true, if_false]
-  obtain ⟨hg1, hu1⟩ := Tame.goodU (tame_cbBegin p t tk false) hg hu
-  split
-  · exact ⟨hg, hu⟩
-  · exact Tame.goodU (tame_logEv _ _) hg1 hu1
-  · obtain ⟨hg2, hu2⟩ := Tame.goodU (tame_logEv (p.cbBegin t tk false) (evCbRaised t false)) hg1 hu1
-    exact good_modTask_unreleased _ t _ hg2 hu2 (fun _ => rfl) (Or.inl fun _ => rfl)
-  · exact goodU_suspendTask _ t _ hg1 hu1 (Or.inr ⟨by decide, by decide⟩)
+theorem inWork_of {cap : Cap} {p : Pool} {t : Nat} {s : SoftP} (hc : p.Cur t s) (hg : Good cap p)
+    (hph : s.phase = .created ∨ s.phase = .inWorker) : InWork s :=
+  ⟨hc.nyr hg (by rcases hph with h | h <;> rw [h] <;> rfl), ((hc.ok hg).c0 hph).1, ((hc.ok hg).c0 hph).2⟩
 
-/-- if the cancel callback did not suspend, the task is still outside the slot-holding phases -/
-theorem runCb_cancel_ready (p : Pool) (t : Nat) (tk : PTask) (hr : p.ReadyToEnd t)
-    (hns : (p.runCb t tk false).2 = false) : (p.runCb t tk false).1.ReadyToEnd t := by
-  unfold runCb at hns ⊢
-  simp only [Bool.false_eq_true, if_false] at hns ⊢
-  have h1 := Tame.readyToEnd (tame_cbBegin p t tk false) hr
-  split
-  · exact hr
-  · exact Tame.readyToEnd (tame_logEv _ _) h1
-  · dsimp only
-    refine Tame.readyToEnd ?_ h1
-    exact Tame.trans (tame_logEv _ _) (tame_modTask _ t _ (fun _ => rfl) (fun _ => Or.inl rfl))
-  · rename_i h; simp [h] at hns
-
-theorem good_cancelCallback {cap : Cap} (p : Pool) (t : Nat) (tk : PTask) (hg : Good cap p) (hr : p.ReadyToEnd t) :
-    Good cap (p.cancelCallback t tk) := by
-  unfold cancelCallback
-  simp only
-  have h := good_runCb_cancel p t tk hg hr.unreleased
-  split
-  · exact h.1
-  · rename_i hns
-    exact good_taskEnding _ t h.1 (runCb_cancel_ready p t tk hr (by simpa using hns))
-
-theorem nonNYR_ne (ph : Phase) (h : NYR ph = false) : ph ≠ .created ∧ ph ≠ .inWorker :=
-  ⟨fun e => by rw [e] at h; exact absurd h (by decide), fun e => by rw [e] at h; exact absurd h (by decide)⟩
-
-/-- the id moves from the running to the cancelled registry -/
-theorem good_regCancel {cap : Cap} (p : Pool) (t : Nat) (hg : Good cap p) (hr : p.ReadyToEnd t) (ht : t ∈ p.running) :
-    Good cap ({ p with running := p.running.erase t, cancelledR := p.cancelledR ++ [t] } : Pool) ∧
-    ({ p with running := p.running.erase t, cancelledR := p.cancelledR ++ [t] } : Pool).ReadyToEnd t := by
-  obtain ⟨tk, a, b, c⟩ := hr
-  refine ⟨⟨hg.slot, hg.phase, hg.reg.regCancel t ht ?_, hg.grp.of_eq rfl rfl⟩, ⟨tk, a, b, c⟩⟩
-  intro tk' h
-  rw [a] at h; cases h
-  exact nonNYR_ne _ c
-
-theorem good_taskCancellation {cap : Cap} (p : Pool) (t : Nat) (tk : PTask) (hg : Good cap p) (hr : p.ReadyToEnd t) :
-    Good cap (p.taskCancellation t tk) := by
-  unfold taskCancellation
-  split
-  · rename_i hc
-    obtain ⟨hg1, hr1⟩ := good_regCancel p t hg hr (by simpa using hc)
-    exact good_cancelCallback _ t tk hg1 hr1
-  · have hg1 := good_setLost p hg
-    have hr1 : ({ p with lost := true } : Pool).ReadyToEnd t := hr
-    have t1 := tame_modTask ({ p with lost := true } : Pool) t (fun k => { k with pendingExc := some .keyError })
-      (fun _ => rfl) (fun _ => Or.inl rfl)
-    exact good_taskEnding _ t (t1.good hg1) (t1.readyToEnd hr1)
-
-/-- an unreleased task enters `wrapUp` and then `_task_ending` -/
-theorem good_wrapUp_ending {cap : Cap} (p : Pool) (t : Nat) (f : PTask → PTask) (hg : Good cap p) (hu : p.Unreleased t)
-    (hr : ∀ x, (f x).released = x.released) (hp : ∀ x, NYR (f x).phase = false) :
-    Good cap ((p.modTask t f).taskEnding t) :=
-  good_taskEnding _ t (good_modTask_unreleased p t f hg hu hr (phaseSafe_of_nonNYR p t f hp)).1
-    (modTask_readyToEnd p t f hu hr hp)
+/-- enter `wrapUp` (the worker is over), keeping everything else -/
+theorem good_toWrapUp {cap : Cap} (p : Pool) (t : Nat) (f : PTask → PTask) (hf : ∀ x, (f x).soft = x.soft.setPhase .wrapUp)
+    (hg : Good cap p) (s : SoftP) (hc : p.Cur t s) :
+    Good cap (p.modTask t f) ∧ (p.modTask t f).Cur t (s.setPhase .wrapUp) :=
+  good_cur p t f (fun s => s.setPhase .wrapUp) hf hg s hc rfl (fun h => by simp [SoftP.setPhase, NYR] at h)
+    (fun _ => by simp [SoftP.setPhase]) ((hc.ok hg).setPhase_free .wrapUp (Or.inl rfl))
 
 /-- the worker coroutine is over (normally or with an exception): `wrapUp`, then `_task_ending` -/
-theorem good_afterWorker {cap : Cap} (p : Pool) (t : Nat) (e : Option Err) (hg : Good cap p) (hu : p.Unreleased t) :
-    Good cap (p.afterWorker t e) := by
+theorem good_afterWorker {cap : Cap} (p : Pool) (t : Nat) (e : Option Err) (hg : Good cap p) (s : SoftP) (hc : p.Cur t s)
+    (hw : InWork s) : Good cap (p.afterWorker t e) := by
   unfold afterWorker
   split
-  · obtain ⟨hg1, hu1⟩ := Tame.goodU (tame_logEv p (Ev.returned t)) hg hu
-    exact good_wrapUp_ending _ t _ hg1 hu1 (fun _ => rfl) (fun _ => rfl)
-  · obtain ⟨hg1, hu1⟩ := Tame.goodU (tame_logEv p (Ev.raised t)) hg hu
-    exact good_wrapUp_ending _ t _ hg1 hu1 (fun _ => rfl) (fun _ => rfl)
+  · have t0 := tame_logEv p (Ev.returned t)
+    obtain ⟨hg1, hc1⟩ := good_toWrapUp (p.logEv (Ev.returned t)) t (fun k => { k with phase := .wrapUp }) (fun _ => rfl)
+      (t0.good hg) s (t0.cur hc)
+    exact good_taskEnding _ t hg1 _ hc1 ⟨hw.rel, rfl, fun h => by rw [show (s.setPhase .wrapUp).wasCancelled = s.wasCancelled from rfl, hw.wc] at h; cases h⟩
+  · rename_i x
+    have t0 := tame_logEv p (Ev.raised t)
+    obtain ⟨hg1, hc1⟩ := good_toWrapUp (p.logEv (Ev.raised t)) t (fun k => { k with phase := .wrapUp, pendingExc := some x })
+      (fun _ => rfl) (t0.good hg) s (t0.cur hc)
+    exact good_taskEnding _ t hg1 _ hc1 ⟨hw.rel, rfl, fun h => by rw [show (s.setPhase .wrapUp).wasCancelled = s.wasCancelled from rfl, hw.wc] at h; cases h⟩
 
-theorem good_stepCreated {cap : Cap} (p : Pool) (t : Nat) (tk : PTask) (hg : Good cap p) (hu : p.Unreleased t)
-    (hnc : t ∉ p.cancelledR) : Good cap (p.stepCreated t tk) := by
+theorem good_stepCreated {cap : Cap} (p : Pool) (t : Nat) (tk : PTask) (hg : Good cap p) (s : SoftP) (hc : p.Cur t s)
+    (hph : s.phase = .created) (hnc : t ∉ p.cancelledR) (hspec : tk.cancelCb = s.cancelCb) :
+    Good cap (p.stepCreated t tk) := by
+  have hw := inWork_of hc hg (Or.inl hph)
   unfold stepCreated
   split
-  · obtain ⟨hg1, _⟩ := good_modTask_unreleased p t
-      (fun k => { k with phase := .wrapUp, unstarted := false, cancelledEarly := false }) hg hu (fun _ => rfl)
-      (Or.inr (Or.inl hnc))
-    exact good_taskCancellation _ t tk hg1 (modTask_readyToEnd _ t _ hu (fun _ => rfl) (fun _ => rfl))
+  · obtain ⟨hg1, hc1⟩ := good_toWrapUp p t (fun k => { k with phase := .wrapUp, unstarted := false, cancelledEarly := false })
+      (fun _ => rfl) hg s hc
+    exact good_taskCancellation _ t tk hg1 _ hc1 rfl hw.rel hw.ncc hw.wc hspec
   · simp only
-    obtain ⟨hg0, hu0⟩ := Tame.goodU (tame_logEv p (Ev.started t tk.arg)) hg hu
-    obtain ⟨hg1, hu1⟩ := good_modTask_unreleased (p.logEv (Ev.started t tk.arg)) t
-      (fun k => { k with phase := .inWorker, fut := .ok, unstarted := false }) hg0 hu0 (fun _ => rfl)
-      (Or.inr (Or.inl hnc))
+    have t0 := tame_logEv p (Ev.started t tk.arg)
+    obtain ⟨hg1, hc1⟩ := good_cur (p.logEv (Ev.started t tk.arg)) t
+      (fun k => { k with phase := .inWorker, fut := .ok, unstarted := false }) (fun s => s.setPhase .inWorker) (fun _ => rfl)
+      (t0.good hg) s (t0.cur hc) rfl (fun _ => hw.rel) (fun h => absurd h hnc) ((hc.ok hg).toInWorker (Or.inl hph))
     have t2 := tame_runHooks ((p.logEv (Ev.started t tk.arg)).modTask t
       (fun k => { k with phase := .inWorker, fut := .ok, unstarted := false })) tk.req (p.reqOf tk).hooks.start
-    obtain ⟨hg2, hu2⟩ := Tame.goodU t2 hg1 hu1
-    have hnc2 : t ∉ (((p.logEv (Ev.started t tk.arg)).modTask t
-      (fun k => { k with phase := .inWorker, fut := .ok, unstarted := false })).runHooks tk.req (p.reqOf tk).hooks.start).cancelledR := by
-      rw [t2.can]; exact hnc
+    have hg2 := t2.good hg1
+    have hc2 := t2.cur hc1
+    have hw2 : InWork (s.setPhase .inWorker) := ⟨hw.rel, hw.ncc, hw.wc⟩
     split
-    · exact good_afterWorker _ t _ hg2 hu2
-    · exact good_afterWorker _ t _ hg2 hu2
-    · exact good_suspendTask _ t _ hg2 hu2 (Or.inl hnc2)
+    · exact good_afterWorker _ t _ hg2 _ hc2 hw2
+    · exact good_afterWorker _ t _ hg2 _ hc2 hw2
+    · refine (good_suspend _ t .inWorker hg2 _ hc2 (fun _ => hw.rel) (fun h => ?_) ?_).1
+      · rw [t2.can] at h; exact absurd h hnc
+      · exact (hc2.ok hg2).toInWorker (Or.inr rfl)
 
-theorem good_workerCancelled {cap : Cap} (p : Pool) (t : Nat) (tk : PTask) (hg : Good cap p) (hu : p.Unreleased t) :
-    Good cap (p.workerCancelled t tk) := by
+theorem good_workerCancelled {cap : Cap} (p : Pool) (t : Nat) (tk : PTask) (hg : Good cap p) (s : SoftP) (hc : p.Cur t s)
+    (hw : InWork s) (hspec : tk.cancelCb = s.cancelCb) : Good cap (p.workerCancelled t tk) := by
   unfold workerCancelled
   simp only
-  obtain ⟨hg0, hu0⟩ := Tame.goodU (tame_logEv p (Ev.sawCancel t)) hg hu
-  obtain ⟨hg1, hu1⟩ := good_modTask_unreleased (p.logEv (Ev.sawCancel t)) t
-    (fun k => { k with sawCancel := true, phase := .wrapUp }) hg0 hu0 (fun _ => rfl)
-    (Or.inr (Or.inr fun _ => ⟨by simp, by simp⟩))
+  have t0 := tame_logEv p (Ev.sawCancel t)
+  obtain ⟨hg1, hc1⟩ := good_toWrapUp (p.logEv (Ev.sawCancel t)) t (fun k => { k with sawCancel := true, phase := .wrapUp })
+    (fun _ => rfl) (t0.good hg) s (t0.cur hc)
   split
-  · exact good_afterWorker _ t _ hg1 hu1
-  · exact good_taskCancellation _ t tk hg1 (modTask_readyToEnd _ t _ hu0 (fun _ => rfl) (fun _ => rfl))
+  · exact good_afterWorker _ t _ hg1 _ hc1 ⟨hw.rel, hw.ncc, hw.wc⟩
+  · exact good_taskCancellation _ t tk hg1 _ hc1 rfl hw.rel hw.ncc hw.wc hspec
 
-theorem good_stepInWorker {cap : Cap} (p : Pool) (t : Nat) (tk : PTask) (hg : Good cap p) (hu : p.Unreleased t) :
-    Good cap (p.stepInWorker t tk) := by
+theorem good_stepInWorker {cap : Cap} (p : Pool) (t : Nat) (tk : PTask) (hg : Good cap p) (s : SoftP) (hc : p.Cur t s)
+    (hph : s.phase = .inWorker) (hspec : tk.cancelCb = s.cancelCb) : Good cap (p.stepInWorker t tk) := by
+  have hw := inWork_of hc hg (Or.inr hph)
   unfold stepInWorker
   split
-  · obtain ⟨hg1, hu1⟩ := good_modTask_unreleased p t (fun k => { k with mustCancel := false }) hg hu (fun _ => rfl)
-      (Or.inl fun _ => rfl)
-    exact good_workerCancelled _ t tk hg1 hu1
+  · have t0 := tame_modTask p t (fun k => { k with mustCancel := false })
+    exact good_workerCancelled _ t tk (t0.good hg) s (t0.cur hc) hw hspec
   · split
-    · exact good_afterWorker p t _ hg hu
-    · exact good_afterWorker p t _ hg hu
+    · exact good_afterWorker p t _ hg s hc hw
+    · exact good_afterWorker p t _ hg s hc hw
     · exact hg
 
-theorem good_stepInCancelCb {cap : Cap} (p : Pool) (t : Nat) (tk : PTask) (hg : Good cap p) (hu : p.Unreleased t) :
-    Good cap (p.stepInCancelCb t tk) := by
+theorem good_stepInCancelCb {cap : Cap} (p : Pool) (t : Nat) (tk : PTask) (hg : Good cap p) (s : SoftP) (hc : p.Cur t s)
+    (hph : s.phase = .inCancelCb) : Good cap (p.stepInCancelCb t tk) := by
+  have hok := hc.ok hg
+  have hrel : s.released = false := hc.nyr hg (by rw [hph]; rfl)
+  have hcc := hok.cc hph
+  have fin : ∀ (q : Pool) (f : PTask → PTask), (∀ x, (f x).soft = x.soft.setPhase .wrapUp) → Tame p q →
+      Good cap ((q.modTask t f).taskEnding t) := by
+    intro q f hf tq
+    obtain ⟨hg1, hc1⟩ := good_toWrapUp q t f hf (tq.good hg) s (tq.cur hc)
+    exact good_taskEnding _ t hg1 _ hc1 ⟨hrel, rfl, fun _ _ => hcc.1⟩
   unfold stepInCancelCb
   split
-  · obtain ⟨hg1, hu1⟩ := Tame.goodU (tame_logEv p (Ev.cancelCbDone t)) hg hu
-    exact good_wrapUp_ending _ t _ hg1 hu1 (fun _ => rfl) (fun _ => rfl)
-  · obtain ⟨hg1, hu1⟩ := Tame.goodU (tame_logEv p (Ev.cancelCbRaised t)) hg hu
-    exact good_wrapUp_ending _ t _ hg1 hu1 (fun _ => rfl) (fun _ => rfl)
-  · obtain ⟨hg1, hu1⟩ := Tame.goodU (tame_logEv p (Ev.cancelCbKilled t)) hg hu
-    exact good_wrapUp_ending _ t _ hg1 hu1 (fun _ => rfl) (fun _ => rfl)
+  · exact fin _ _ (fun _ => rfl) (tame_logEv p _)
+  · exact fin _ _ (fun _ => rfl) (tame_logEv p _)
+  · exact fin _ _ (fun _ => rfl) (tame_logEv p _)
   · exact hg
 
-theorem tame_stepInEndCb (p : Pool) (t : Nat) (tk : PTask) : Tame p (p.stepInEndCb t tk) := by
+theorem good_stepInEndCb {cap : Cap} (p : Pool) (t : Nat) (tk : PTask) (hg : Good cap p) (s : SoftP) (hc : p.Cur t s)
+    (hph : s.phase = .inEndCb) : Good cap (p.stepInEndCb t tk) := by
+  have hok := hc.ok hg
+  obtain ⟨hne, hecb, hrel⟩ := hok.ec hph
+  have hfin : OKs p.lost (s.setPhase .finished) :=
+    hok.finished hrel (by rw [hne, hecb]; simp) (fun hw hn => hok.ord hne hw hn)
   unfold stepInEndCb
   split
-  · exact Tame.trans (tame_logEv p _) (tame_finishTask _ t)
-  · refine Tame.trans ?_ (tame_finishTask _ t)
-    exact Tame.trans (tame_logEv p _) (tame_modTask _ t _ (fun _ => rfl) (fun _ => Or.inl rfl))
-  · refine Tame.trans ?_ (tame_finishTask _ t)
-    exact Tame.trans (tame_logEv p _) (tame_modTask _ t _ (fun _ => rfl) (fun _ => Or.inl rfl))
-  · exact Tame.refl p
+  · have t0 := tame_logEv p (Ev.endCbDone t)
+    exact good_finishTask _ t (t0.good hg) s (t0.cur hc) (by rw [t0.lost]; exact hfin)
+  · rename_i x _
+    have t0 : Tame p ((p.logEv (Ev.endCbRaised t)).modTask t fun k => { k with pendingExc := some x }) :=
+      Tame.trans (tame_logEv _ _) (tame_modTask _ t _)
+    exact good_finishTask _ t (t0.good hg) s (t0.cur hc) (by rw [t0.lost]; exact hfin)
+  · have t0 : Tame p ((p.logEv (Ev.endCbKilled t)).modTask t fun k => { k with pendingExc := some .cancelledError }) :=
+      Tame.trans (tame_logEv _ _) (tame_modTask _ t _)
+    exact good_finishTask _ t (t0.good hg) s (t0.cur hc) (by rw [t0.lost]; exact hfin)
+  · exact hg
 
-/-- one step of any pool task preserves slot conservation, the phase invariant and the registry invariant -/
+/-- one step of any pool task preserves all the invariants -/
 theorem good_stepTask {cap : Cap} (p : Pool) (t : Nat) (hg : Good cap p) : Good cap (p.stepTask t) := by
   unfold stepTask
   split
@@ -465,21 +603,20 @@ theorem good_stepTask {cap : Cap} (p : Pool) (t : Nat) (hg : Good cap p) : Good 
     split
     · exact hg
     · simp only
-      have t0 := tame_modTask p t (fun k => { k with sched := false }) (fun _ => rfl) (fun _ => Or.inl rfl)
+      have t0 := tame_modTask p t (fun k => { k with sched := false })
       have hg0 := t0.good hg
-      have unrel : NYR tk.phase = true → (p.modTask t fun k => { k with sched := false }).Unreleased t :=
-        fun hn => t0.unreleased ⟨tk, htk, hg.phase t tk htk hn⟩
-      have notCan : tk.phase = .created → t ∉ (p.modTask t fun k => { k with sched := false }).cancelledR := by
-        intro hph hmem
+      have hc0 : (p.modTask t fun k => { k with sched := false }).Cur t tk.soft := t0.cur ⟨tk, htk, rfl⟩
+      split
+      · rename_i hph
+        refine good_stepCreated _ t tk hg0 tk.soft hc0 hph ?_ rfl
+        intro hmem
         obtain ⟨tk', a, _, c, _⟩ := hg.reg.can t hmem
         rw [htk] at a; cases a
         exact c hph
-      split
-      · rename_i hph; exact good_stepCreated _ t tk hg0 (unrel (by rw [hph]; rfl)) (notCan hph)
       · exact hg0
-      · rename_i hph; exact good_stepInWorker _ t tk hg0 (unrel (by rw [hph]; rfl))
-      · rename_i hph; exact good_stepInCancelCb _ t tk hg0 (unrel (by rw [hph]; rfl))
-      · exact (tame_stepInEndCb _ t tk).good hg0
+      · rename_i hph; exact good_stepInWorker _ t tk hg0 tk.soft hc0 hph rfl
+      · rename_i hph; exact good_stepInCancelCb _ t tk hg0 tk.soft hc0 hph
+      · rename_i hph; exact good_stepInEndCb _ t tk hg0 tk.soft hc0 hph
       · exact hg0
 
 end Pool
